@@ -35,7 +35,7 @@ PROPS = {
         "not_covered": ["buf_process flushing a handler's buffered sends in emission order (net/runtime/ctx.rs: global Mutex, outside the subset)", "BinaryHeap back end (only promises time order)"],
     },
     "C10": {
-        "bundles": ["core"],
+        "bundles": ["core", "core#total"],
         "fns": {"core": ["CQueue::peek_time", "cqueue_impl::FutureEventSet::peek_time", "RuntimeLimit::applies", "Runtime::dispatch_event", "Runtime::dispatch_all", "Runtime::dispatch_n_events", "Runtime::dispatch_events_until", "Runtime::add_event", "Runtime::num_events_remaining"]},
         "assumptions": [A_DLL, A_DUR, A_BOUNDS, A_NEW, A_HANDLER, A_CLOCK, A_BUILD, A_DERIVE],
         "not_covered": ["termination of dispatch_all (handlers may schedule forever): partial correctness", "Runtime::start (macro_rules inside the body) not extracted"],
